@@ -7,6 +7,8 @@ import re
 
 from extract import read, strip_cpp_comments, func_body, body_after, order_of, MO, lean_bool
 
+from extractors.spin import lock_orders
+
 IMPORTS = ["QuillModel.Filt.Model"]
 
 GUARD = r"LockGuard\s+(?:const\s+)?\w+\s*[{(]\s*_global_filters_lock\s*[})]\s*;"
@@ -36,12 +38,8 @@ def pos(pattern, text):
 
 def extract(repo, failures):
     src = strip_cpp_comments(read(repo, "include/quill/sinks/Sink.h"))
-    lsrc = strip_cpp_comments(read(repo, "include/quill/core/Spinlock.h"))
-    lk = func_body(lsrc, r"void\s+lock\s*\(\s*\)\s*(?:noexcept)?\s*\{")
-    ul = func_body(lsrc, r"void\s+unlock\s*\(\s*\)\s*(?:noexcept)?\s*\{")
-    d = {}
-    d["xchg"] = order_of(lk, "_flag", "exchange", failures, "filt: spinlock.lock")
-    d["unl"] = order_of(ul, "_flag", "store", failures, "filt: spinlock.unlock")
+    lo, _, _ = lock_orders(repo, failures, "filt: spinlock")
+    d = {"xchg": lo["xchg"], "unl": lo["unl"]}
 
     ab = func_body(src, r"void\s+add_filter\s*\([^)]*\)\s*\{")
     fb = func_body(src, r"bool\s+apply_all_filters\s*\([^{;]*\)\s*\{")
